@@ -722,6 +722,12 @@ def run(ctx):
     # headers are an observable of the index: the header merkle cache must not keep orphaned block hashes
     from . import c11
     ctx.rule('C03.HEADERMC', lambda: c11.rule_truncate(ctx, 'C03.HEADERMC'), 2)
+    # undo pairs each undo entry with the transactions in exact reverse order
+    from . import c13
+    ctx.rule('C03.REVERSE', lambda: c13.rule_reverse(ctx, 'C03.REVERSE'), 3)
+    # 'a fork of any depth within the configured reorg limit': undo information must exist for that window (C15)
+    from . import c15
+    c15.run(ctx)
     # the backup flush truncates history with the decremented count in the same job (shared with C05 / C06)
     from ..effects import InlineGraph
     from .flushcommon import commit_points
